@@ -135,8 +135,9 @@ class Pat:
     """Structural pattern over ast.  Metavariables are names starting with ``M_``:
     ``M_x`` binds any expression (consistently), ``M__`` is an anonymous wildcard.
     ``M_x`` in *attribute* position (``a.M_x``) binds the attribute string.
-    A call pattern ending in ``M_rest`` as a starred argument (``f(a, *M_rest)``)
-    accepts any remaining positional and keyword arguments.
+    A call pattern ending in ``*M_rest`` (any metavariable starting with ``M_r``) as a
+    starred argument (``f(a, *M_rest)``) accepts any remaining positional and keyword
+    arguments; other starred metavariables match a starred argument.
     """
 
     def __init__(self, src: str, mode: str = "auto"):
@@ -223,7 +224,7 @@ def _match_call(p: ast.Call, n: ast.Call, b) -> bool:
         return False
     pargs = list(p.args)
     rest = False
-    if pargs and isinstance(pargs[-1], ast.Starred) and _is_meta(pargs[-1].value):
+    if pargs and isinstance(pargs[-1], ast.Starred) and _is_meta(pargs[-1].value) and pargs[-1].value.id.startswith("M_r"):
         rest = True
         pargs = pargs[:-1]
     if rest:
